@@ -60,6 +60,9 @@ def exact_reason(s, defs, top=True):
     for kw in ("allOf", "anyOf", "oneOf", "not"):
         if kw in s and mentions_object(s[kw]):
             return "multi-over-object"
+    if s.get("uniqueItems") and mentions_object(s.get("items")):
+        # elements become Structure instances / surplus elements stay raw dicts: `==` differs from JSON equality
+        return "unique-over-object"
     if isinstance(s.get("multiplesOf"), float) or (s.get("type") == "number" and "multiplesOf" in s):
         return "float-multiplesOf"
     for k, v in s.items():
@@ -134,13 +137,13 @@ class DocGen:
             if depth > 3:
                 return tail
             if items is None:
-                out += [[1, "a"], [1, 1], [[1], [1]], [1, 2, 3, 4], [1, "a", None]]
+                out += [[1, "a"], [1], [1, "a", 2], [1, 1], [[1], [1]], [1, 2, 3, 4], [1, 2, 3, 4, 5], [1, "a", None]]
             elif isinstance(items, dict):
                 c = self.cands(items, depth + 1)
                 good = self.valid_of(items, c)
                 if good:
                     g = good[0]
-                    out += [[g], [g, g], [g, g, g, g]]
+                    out += [[g], [g, g], [g, g, g], [g, g, g, g], [g, g, g, g, g]]
                     if len(good) > 1:
                         out += [[good[0], good[1]], [good[1], good[0], good[1]]]
                     for x in c[:6]:
